@@ -148,7 +148,8 @@ def cases(seed, tier):
         d.update(extra)
         out.append(d)
 
-    rep = 1 if quick else 8
+    rep = 1 if quick else 24
+    geo = 1 if quick else 3  # geometry variants per resolution pair
     hi = 40
     # ---- fixed solids ----------------------------------------------------------------
     for _ in range(6 * rep):
@@ -190,10 +191,11 @@ def cases(seed, tier):
         n = [4, 5, 6, 7, 8][i % 5] if i < 10 else rng.randint(4, 60 if quick else 400)
         add("sphere_fibonacci", {"n_pts": n, "radius": _radius(rng), "build_surface": i % 6 != 5})
     for (a, b) in _pairs(rng, 2, 3, hi, 90 if quick else 1200, exhaustive_to=5 if quick else 40):
-        r = _radius(rng)
-        add("sphere_uv", {"n_lat": a, "n_long": b, "center": _center(rng, r), "radius": r})
+        for _ in range(geo):
+            r = _radius(rng)
+            add("sphere_uv", {"n_lat": a, "n_long": b, "center": _center(rng, r), "radius": r})
     for (a, b) in _pairs(rng, 3, 3, hi, 50 if quick else 1200, exhaustive_to=4 if quick else 40):
-        for tri in (False, True):
+        for tri in (False, True) * geo:
             R_ = _radius(rng)
             add("torus", {"major_segments": a, "minor_segments": b, "major_radius": R_,
                           "minor_radius": _r6(R_ * rng.uniform(0.02, 0.95)), "triangulate": tri})
@@ -220,7 +222,7 @@ def cases(seed, tier):
         defect = [0.0, 2 * math.pi - 0.01, 1e-4, math.pi / 2, math.pi, 6.0][k] if k < 6 else _r6(rng.uniform(0, 2 * math.pi - 0.01))
         add("ring", {"N": N, "defect": defect, "open": (i // 2) % 2 == 1, "n_cover": 1 if i % 5 else rng.choice([2, 3])})
     # adversarial: the requested defect is exactly the defect of a point the bisection visits (heights 5, 2.5, 7.5 are its first midpoints)
-    for i, z in enumerate([5.0, 2.5, 7.5] * (1 if quick else 4)):
+    for i, z in enumerate([5.0, 2.5, 7.5] * (1 if quick else 4)):  # 12 values of N at most
         add("ring", {"N": [3, 4, 6, 5, 8, 12, 7, 20, 40, 9, 10, 11][i], "defect": None, "open": i % 2 == 1, "n_cover": 1}, defect_from_height=z)
     for N in ([0, 1, 2, -1] if quick else [0, 1, 2, -1, -5]):
         for op in (False, True):
